@@ -400,6 +400,14 @@ def _families(col, crate, adt, targets, sfx, modes=None, assign_of=None, A=None)
     for st in I.final_states:
         calls = [e for e in st.event_list() if e.kind == "call" and not e.extra.get("inlined")]
         ok = len(calls) == 1 and (calls[0].fn.get("resolved") or calls[0].fn).get("def") == arith.key
+        if not ok and deleg is dab:
+            # the assigning form may carry the arithmetic itself: `*self *= rhs.inv()`
+            inv_ = [e for e in calls if (e.fn.get("resolved") or e.fn).get("def") == invb.key]
+            mul_ = [e for e in calls if (e.fn.get("resolved") or e.fn).get("def") == mulas_b.key]
+            if len(calls) == 2 and len(inv_) == 1 and len(mul_) == 1 and inv_[0].extra["argvals"][0] == ("param", 2, I.names.get(2)) and mul_[0].args[0] in (("param", 1, I.names.get(1)), ("ref", selfp)) and mul_[0].args[1] == inv_[0].res and not [e for e in st.event_list() if e.kind == "store"]:
+                col.ok("M2" + sfx, deleg.loc(), "%s|delegates" % fk(deleg), "*self *= rhs.inv()")
+                col.obligation(True)
+                continue
         if ok and deleg is dab:
             stores = [e for e in st.event_list() if e.kind == "store" and e.place == selfp]
             ok = calls[0].args == (("load", ("m0",), selfp), ("param", 2, I.names.get(2))) and len(stores) == 1 and stores[0].val == calls[0].res
